@@ -144,10 +144,23 @@ func runC03(r *Run, p *Prog) {
 					n++
 					vals := fieldStores(a)["Parameters"]
 					okk := len(vals) <= 1
-					for _, v := range vals {
-						if !strings.HasPrefix(strip(T.T(v)), "param:") {
-							okk = false
+					// a function of the generic reply API (it has an interface-typed parameters argument) must pass
+					// that argument on; a typed helper (no such argument) builds its own typed value, whose content
+					// is the business of C04.T9 / C12.X2
+					generic := false
+					for _, prm := range f.Params {
+						if it, ok := prm.Type().Underlying().(*types.Interface); ok && it.NumMethods() == 0 {
+							generic = true
 						}
+					}
+					for _, v := range vals {
+						if strings.HasPrefix(strip(T.T(v)), "param:") {
+							continue
+						}
+						if al := unwrapAlloc(v); !generic && al != nil && al.Parent() == f && derefStruct(al.Type()) != nil {
+							continue
+						}
+						okk = false
 					}
 					r.Ob("P3", shortName(f), "reply literal carries the function's parameters argument unchanged", a.Pos(), okk, fmt.Sprintf("reply.Parameters = %v", termsOf(T, vals)))
 				}
